@@ -173,15 +173,18 @@ Proof.
     rewrite Hne. rewrite (IH _ _ _ _ H). unfold tg_push_param. cbn [tg_params]. rewrite <- app_assoc. reflexivity.
 Qed.
 
-Lemma deps_where_step_params name : forall ws b tg,
-  tg_params (snd (fold_left (deps_where_step name) ws (b, tg))) = tg_params tg.
+Lemma lift_where_params lts tg w : tg_params (lift_where lts tg w) = tg_params tg.
+Proof. unfold lift_where. destruct (mentions_lifetime lts (wp_toks w)); reflexivity. Qed.
+
+Lemma deps_where_step_params lts name : forall ws b tg,
+  tg_params (snd (fold_left (deps_where_step lts name) ws (b, tg))) = tg_params tg.
 Proof.
   induction ws as [|w ws IH]; intros b tg; cbn [fold_left]; [reflexivity|].
-  destruct (deps_where_step name (b, tg) w) as [b' tg1] eqn:E. rewrite IH.
-  unfold deps_where_step in E. destruct (wp_is_type w); [|injection E as _ <-; reflexivity].
-  destruct (wp_bounded w) as [q lead n f|]; [|injection E as _ <-; reflexivity].
-  destruct (q || lead); [injection E as _ <-; reflexivity|].
-  destruct (negb (n =? 1)); [injection E as _ <-; reflexivity|].
+  destruct (deps_where_step lts name (b, tg) w) as [b' tg1] eqn:E. rewrite IH.
+  unfold deps_where_step in E. destruct (wp_is_type w); [|injection E as _ <-; apply lift_where_params].
+  destruct (wp_bounded w) as [q lead n f|]; [|injection E as _ <-; apply lift_where_params].
+  destruct (q || lead); [injection E as _ <-; apply lift_where_params|].
+  destruct (negb (n =? 1)); [injection E as _ <-; apply lift_where_params|].
   destruct (String.eqb f name); injection E as _ <-; reflexivity.
 Qed.
 
@@ -197,9 +200,9 @@ Proof.
   - unfold kind_agrees in Hk. destruct (deps_kind (no_deps_value o) s) as [[n|] b|t|].
     + destruct Hk as [Hf _]. unfold find_deps_generic_bounds in Hf.
       destruct (find_type_param n (p_items (g_params (s_gen s))) 0) as [[idx p]|] eqn:F; [|discriminate].
-      destruct (fold_left (deps_where_step n) (where_items (s_gen s)) (trait_bounds (gp_bounds p), push_others (p_items (g_params (s_gen s))) 0 idx tg)) as [bounds tg2] eqn:E.
+      destruct (fold_left (deps_where_step (life_names (s_gen s)) n) (where_items (s_gen s)) (trait_bounds (gp_bounds p), push_others (p_items (g_params (s_gen s))) 0 idx tg)) as [bounds tg2] eqn:E.
       injection Hf as _ <-.
-      pose proof (deps_where_step_params n (where_items (s_gen s)) (trait_bounds (gp_bounds p)) (push_others (p_items (g_params (s_gen s))) 0 idx tg)) as Hp.
+      pose proof (deps_where_step_params (life_names (s_gen s)) n (where_items (s_gen s)) (trait_bounds (gp_bounds p)) (push_others (p_items (g_params (s_gen s))) 0 idx tg)) as Hp.
       rewrite E in Hp. cbn [snd] in Hp. rewrite Hp. apply (push_others_found n _ _ _ _ _ F).
     + destruct Hk as [_ ->]. apply deps_with_generics_params'.
     + destruct Hk as (_ & _ & ->). apply deps_with_generics_params'.
@@ -318,6 +321,75 @@ Proof.
   - apply flat_names_nl.
 Qed.
 
+(** ** no lifted where predicate names a lifetime parameter of its function *)
+Section NoLifetime.
+  Variable lts : list string.
+  Definition okw (w : wpred) : Prop := mentions_lifetime lts (wp_toks w) = false.
+  Definition winv_lt (tg : trait_generics) : Prop := Forall okw (p_items (tg_where tg)).
+
+  Lemma lift_ok tg w : winv_lt tg -> winv_lt (lift_where lts tg w).
+  Proof.
+    unfold winv_lt, lift_where. intros H. destruct (mentions_lifetime lts (wp_toks w)) eqn:E; [exact H|].
+    unfold tg_push_where, p_push. cbn [tg_where p_items]. apply Forall_app. split; [exact H | constructor; [exact E | constructor]].
+  Qed.
+
+  Lemma fold_lift_ok : forall ws tg, winv_lt tg -> winv_lt (fold_left (lift_where lts) ws tg).
+  Proof. induction ws as [|w ws IH]; intros tg H; cbn [fold_left]; [exact H|]. apply IH. apply lift_ok. exact H. Qed.
+
+  Lemma fold_params_ok : forall ps tg, winv_lt tg ->
+    winv_lt (fold_left (fun acc p => if is_life p then acc else tg_push_param acc p) ps tg).
+  Proof. induction ps as [|p ps IH]; intros tg H; cbn [fold_left]; [exact H|]. apply IH. destruct (is_life p); exact H. Qed.
+
+  Lemma push_others_ok : forall l idx skip tg, winv_lt tg -> winv_lt (push_others l idx skip tg).
+  Proof.
+    induction l as [|p l IH]; intros idx skip tg H; cbn [push_others]; [exact H|]. apply IH.
+    destruct (Nat.eqb idx skip || is_life p); exact H.
+  Qed.
+
+  Lemma where_step_ok name b tg w : winv_lt tg -> winv_lt (snd (deps_where_step lts name (b, tg) w)).
+  Proof.
+    intros H. unfold deps_where_step. destruct (wp_is_type w); [|apply lift_ok; exact H].
+    destruct (wp_bounded w) as [q l ns f|]; [|apply lift_ok; exact H].
+    destruct (q || l); [apply lift_ok; exact H|]. destruct (negb (Nat.eqb ns 1)); [apply lift_ok; exact H|].
+    destruct (String.eqb f name); exact H.
+  Qed.
+
+  Lemma fold_step_ok name : forall ws b tg, winv_lt tg -> winv_lt (snd (fold_left (deps_where_step lts name) ws (b, tg))).
+  Proof.
+    induction ws as [|w ws IH]; intros b tg H; cbn [fold_left]; [exact H|].
+    pose proof (where_step_ok name b tg w H) as Hs. destruct (deps_where_step lts name (b, tg) w) as [b' tg']. apply IH. exact Hs.
+  Qed.
+End NoLifetime.
+
+Lemma deps_with_generics_ok tg g : winv_lt (life_names g) tg -> winv_lt (life_names g) (deps_with_generics tg g).
+Proof. intros H. unfold deps_with_generics. apply fold_lift_ok. apply fold_params_ok. exact H. Qed.
+
+Lemma extract_ok_lt g : forall ty tg d tg',
+  extract_deps_from_type tg g ty = Ok (d, tg') -> winv_lt (life_names g) tg -> winv_lt (life_names g) tg'.
+Proof.
+  induction ty as [l m e IH|e IH|tr bs|q lead n f ts|ts]; intros tg d tg' H Hi; cbn [extract_deps_from_type] in H.
+  - eapply IH; eassumption.
+  - eapply IH; eassumption.
+  - injection H as _ <-. apply deps_with_generics_ok. exact Hi.
+  - destruct q; [discriminate|]. destruct lead; [discriminate|].
+    destruct (negb (Nat.eqb n 1)); [injection H as _ <-; apply deps_with_generics_ok; exact Hi|].
+    destruct (find_deps_generic_bounds tg g f) as [[d0 tg0]|] eqn:E.
+    + injection H as _ <-. unfold find_deps_generic_bounds in E.
+      destruct (find_type_param f (p_items (g_params g)) 0) as [[idx p]|]; [|discriminate].
+      pose proof (fold_step_ok (life_names g) f (where_items g) (trait_bounds (gp_bounds p)) _ (push_others_ok (life_names g) (p_items (g_params g)) 0 idx tg Hi)) as Hs.
+      destruct (fold_left _ _ _) as [b t2]. injection E as _ <-. exact Hs.
+    + injection H as _ <-. apply deps_with_generics_ok. exact Hi.
+  - injection H as _ <-. apply deps_with_generics_ok. exact Hi.
+Qed.
+
+Lemma analyze_fn_deps_ok_lt tg s o d tg' :
+  analyze_fn_deps tg s o = Ok (d, tg') -> winv_lt (life_names (s_gen s)) tg -> winv_lt (life_names (s_gen s)) tg'.
+Proof.
+  unfold analyze_fn_deps. intros H Hi. destruct (no_deps_value o).
+  - destruct (p_items (s_inputs s)) as [|[x r m c|x p ty] rest]; try discriminate H; injection H as _ <-; apply deps_with_generics_ok; exact Hi.
+  - destruct (p_items (s_inputs s)) as [|[x r m c|x p ty] rest]; try discriminate H. eapply extract_ok_lt; eassumption.
+Qed.
+
 (** ** lists of functions *)
 Lemma analyze_all_params k o : forall sigs tg fns tg',
   analyze_all k o tg sigs = Ok (fns, tg') ->
@@ -422,6 +494,14 @@ Proof.
                 (where_items (mkGen true (p_of_list (impl_params (with_t_of mode) (has_any_self_by_value [tf]) (tg_params tg))) (where_of_list (impl_where mode INone [tf] tg))))
                 Hall Hi Hi') as (I1 & I2 & I3 & I4).
     cbn [map] in I1, I2, I3, I4. cbn [g_params]. rewrite I1, I2, I3, I4. cbn [andb].
+    assert (Hlt : forallb (fun w => negb (mentions_lifetime (life_names (s_gen s)) (wp_toks w)))
+                    (where_items (t_gen (gen_trait_def o TPlain mode (h_attrs h) None (fa_vis a) (fa_trait a) tg false pempty [tf] MSingleFn))) = true).
+    { destruct (analyze_inv _ _ _ _ _ _ Hz) as (deps & s' & Hd & _ & _).
+      pose proof (analyze_fn_deps_ok_lt _ _ _ _ _ Hd (Forall_nil _)) as Hw. change (s_gen (merged_sig h s)) with (s_gen s) in Hw.
+      unfold gen_trait_def, where_items. cbn [t_gen g_where]. unfold winv_lt in Hw.
+      destruct (p_items (tg_where tg)) eqn:Ew; [reflexivity|]. rewrite Ew.
+      apply forallb_forall. intros w0 Hin. rewrite Forall_forall in Hw. unfold okw in Hw. rewrite (Hw w0 Hin). reflexivity. }
+    rewrite Hlt. cbn [andb].
     rewrite Hp. apply nodup_str_NoDup. apply lifted_nodup. exact Hnd.
   - unfold view_C03, good. cbn. discriminate.
   - unfold view_C03, good. cbn. discriminate.
